@@ -1,9 +1,10 @@
 """C12 - the output of a switch follows only the branch selected by the current key, which starts fresh."""
 import os
 from vlib import Case, Stream, BUILD, VERIF, model_cmd
+import c12coll as coll
 
 ID = "C12"
-LEAN_MODULES = ["HgVerif.Props.C12"]
+LEAN_MODULES = ["HgVerif.Props.C12"] + list(coll.LEAN_MODULES)
 THEOREMS = [
     "HgVerif.Switch.inv_reachable",
     "HgVerif.Switch.switch_old_dead",
@@ -18,26 +19,26 @@ THEOREMS = [
     "HgVerif.Switch.segment_follows_branch",
     "HgVerif.Switch.switch_follows_selected",
     "HgVerif.Switch.follows_selected_unique",
-]
-CXX_TARGETS = ["hgv_switch"]
+] + list(coll.THEOREMS)
+CXX_TARGETS = ["hgv_switch"] + list(coll.CXX_TARGETS)
 RULE = ("key/input histories replayed into a REAL graph replay(key: TS<int>|TS<str>), replay(x)[, replay(y)] -> "
         "switch_({k: branch, ...}[, default][.reload()], x[, y]) -> record with 0, 1 or 2 time-series arguments; branches "
         "from a vocabulary of 11 (stateless, stateful sum, key-consuming, self-scheduling NodeScheduler timers incl. a "
         "start-hook source, two-input, unchecked-validity, a two-node sub-graph); a case is non-trivial when it performs "
         ">= 3 activations (the A/B slot reuse path) with at least one output tick, or fails on an unmatched key after an "
-        "activation; distinct by sha1 of the case body")
+        "activation; distinct by sha1 of the case body" + " " + coll.RULE)
 TRUSTED = ["replay/record nodes, target links and the child graph's own node scheduling are taken as given (C01-C03, C13, C20)",
-           "harness branch nodes carry a state object whose constructor/destructor log; instance identity = ordinal of the start event"]
+           "harness branch nodes carry a state object whose constructor/destructor log; instance identity = ordinal of the start event"] + list(coll.TRUSTED)
 ASSUMPTIONS = ["every bound branch input is active (passive held inputs stay silent by design; pinned by the repo's own test)",
                "ordinary output path (TS<int> result written into the switch-owned output; REF-shaped / forwarding-terminal "
                "branches use the same slot protocol and are not exercised)",
                "the engine evaluates the switch node exactly when its schedule entry equals the cycle time (C02)",
-               "memory safety of reusing the two fixed graph slots is outside the model"]
+               "memory safety of reusing the two fixed graph slots is outside the model"] + list(coll.ASSUMPTIONS)
 TECHNIQUE = ("Lean 4 proof: invariant over every reachable state of the switch node's A/B-slot state machine with branches as "
              "arbitrary Mealy machines with wake-up times (lifecycle monitor on the emitted event trace, state-independence of "
              "activation, error characterisation) and a refinement of the whole run to the concatenation of per-segment "
              "stand-alone runs; tied to the code by differential correspondence against a real switch_ graph and an independent "
-             "Python reference monitor")
+             "Python reference monitor" + "; " + coll.TECHNIQUE)
 LEVEL_TEXT = ("Kernel-checked for ARBITRARY branch behaviours (any state type, any step/start function, any wake-up times), any "
               "case table, default and reload flag, and ALL key/input histories: every event trace of the model satisfies the "
               "lifecycle monitor (at most one running child, only the running child is evaluated, a slot is empty when a child "
@@ -46,7 +47,7 @@ LEVEL_TEXT = ("Kernel-checked for ARBITRARY branch behaviours (any state type, a
               "the recorded output stream equals the concatenation over maximal constant-selection segments of the selected "
               "branch run alone from its start state with the valid held inputs sampled in the first cycle (child wake-ups are "
               "never lost or duplicated by the parent's single schedule entry). The executable model is compared line by line "
-              "with the real runtime on generated histories.")
+              "with the real runtime on generated histories." + " " + coll.LEVEL_TEXT)
 LEVEL_NOTE = ("Trusted: Lean kernel + standard axioms; the hand-written model (tied by correspondence); the Python reference "
               "monitor. The child graph is a Mealy machine: its internal node scheduling, target-link sampling of nested "
               "collections and the REF/forwarding output paths are observed through traces only.")
@@ -196,7 +197,8 @@ def streams(rng, tier, seed):
     if os.path.isdir(cdir):
         for f in sorted(os.listdir(cdir)):
             corpus.append(Case([l.rstrip("\n") for l in open(os.path.join(cdir, f)) if l.strip()]))
-    return [Stream("switch", [os.path.join(BUILD, "hgv_switch")], model_cmd("C12"), corpus + cases, timeout=3000)]
+    return ([Stream("switch", [os.path.join(BUILD, "hgv_switch")], model_cmd("C12"), corpus + cases, timeout=3000)]
+            + coll.streams(rng, tier, seed))
 
 
 # ------------------------------------------------------------------ the reference: plain-Python branch functions
@@ -555,21 +557,35 @@ def _life(evs, st, bad, where, feats):
 
 
 def monitor(stream, case, out):
+    if stream.startswith("switchcoll"):
+        return coll.monitor(stream, case, out)
     return _spec(case, out)[0][:3]
 
 
 def features(stream, case, out):
+    if stream.startswith("switchcoll"):
+        return ["coll:" + f for f in coll.features(stream, case, out)]
     return sorted(x for x in _spec(case, out)[1] if x != "nontrivial")
 
 
 def nontrivial(stream, case, out):
+    if stream.startswith("switchcoll"):
+        return coll.nontrivial(stream, case, out)
     return "nontrivial" in _spec(case, out)[1]
+
+
+def valid_case(stream, case, impl_out, model_out):
+    if stream.startswith("switchcoll"):
+        return coll.valid_case(stream, case, impl_out, model_out)
+    return True
 
 
 def alarm_filter(stream, case, impl_out, model_out):
     """Observable: recorded ticks, output value, error classes and the lifecycle events of every cycle in their
     order.  Which of the two slots is disposed of first when the node storage is released (the order of the
     D events in the `end` line) is slot-allocation policy: diagnostic only."""
+    if stream.startswith("switchcoll"):
+        return coll.alarm_filter(stream, case, impl_out, model_out)
     notes, alarm = [], False
     if len(impl_out) != len(model_out):
         return True, ["line counts differ"]
